@@ -13,11 +13,11 @@ EXTENDS Integers, Sequences, FiniteSets, TLC, Json, EioProps
 CONSTANT TraceFile
 Trace == ndJsonDeserialize(TraceFile)
 
-VARIABLES l, scn, cfg, S, Rq, Cn, Pre, viol, done
-vars == <<l, scn, cfg, S, Rq, Cn, Pre, viol, done>>
+VARIABLES l, scn, cfg, S, Rq, Cn, Pre, grid, viol, done
+vars == <<l, scn, cfg, S, Rq, Cn, Pre, grid, viol, done>>
 
 NoCfg == [pi |-> 25000000, pt |-> 20000000, ut |-> 10000000, maxbuf |-> 1000000]
-Init == /\ l = 1 /\ scn = "" /\ cfg = NoCfg /\ S = <<>> /\ Rq = <<>> /\ Cn = <<>> /\ Pre = <<>> /\ viol = <<>> /\ done = FALSE
+Init == /\ l = 1 /\ scn = "" /\ cfg = NoCfg /\ S = <<>> /\ Rq = <<>> /\ Cn = <<>> /\ Pre = <<>> /\ grid = FALSE /\ viol = <<>> /\ done = FALSE
 
 V(prop, clause, sid, detail) == [scn |-> scn, line |-> l, prop |-> prop, clause |-> clause, sid |-> sid, detail |-> detail]
 Put(f, k, v) == [x \in DOMAIN f \cup {k} |-> IF x = k THEN v ELSE f[x]]
@@ -103,6 +103,7 @@ Step ==
   IN
   /\ l <= Len(Trace) /\ l' = l + 1 /\ done' = FALSE
   /\ scn' = IF e.e = "reset" THEN e.scn ELSE scn
+  /\ grid' = IF e.e = "reset" THEN FALSE ELSE grid \/ onGrid
   /\ Pre' = IF e.e = "reset" THEN <<>>
             ELSE IF e.e = "gate.park" /\ e.point = "handshake.constructed" THEN Put(Pre, e.id, t) ELSE Pre
   /\ CASE e.e = "reset" ->
@@ -202,10 +203,10 @@ Step ==
                         ELSE LET d == s.del[Len(s.del)] IN IF \E i \in 1..Len(s.sub) : s.sub[i] = d THEN CHOOSE i \in 1..Len(s.sub) : s.sub[i] = d ELSE 0
             IN /\ S' = Upd([s EXCEPT !.del = Append(s.del, e.id)])
                /\ viol' = viol \o tv \o SockCommon(e, s)
-                    \o (IF e.id \notin s.may THEN <<V("C02", "delivered_message_never_eligible", e.sid, e.id)>> ELSE <<>>)
-                    \o (IF e.id \in SeqSet(s.del) THEN <<V("C02", "message_delivered_twice", e.sid, e.id)>> ELSE <<>>)
-                    \o (IF pos # 0 /\ pos < last THEN <<V("C02", "messages_delivered_out_of_order", e.sid, e.id)>> ELSE <<>>)
-                    \o (IF ~e.intact THEN <<V("C02", "delivered_bytes_differ", e.sid, e.id)>> ELSE <<>>)
+                    \o (IF e.id \notin s.may THEN <<V("C02", "delivered_message_never_eligible", e.sid, [id |-> e.id, v3lossy |-> s.v3lossy])>> ELSE <<>>)
+                    \o (IF e.id \in SeqSet(s.del) THEN <<V("C02", "message_delivered_twice", e.sid, [id |-> e.id, v3lossy |-> s.v3lossy])>> ELSE <<>>)
+                    \o (IF pos # 0 /\ pos < last THEN <<V("C02", "messages_delivered_out_of_order", e.sid, [id |-> e.id, v3lossy |-> s.v3lossy])>> ELSE <<>>)
+                    \o (IF ~e.intact THEN <<V("C02", "delivered_bytes_differ", e.sid, [id |-> e.id, v3lossy |-> s.v3lossy])>> ELSE <<>>)
                     \o (IF e.len > cfg.maxbuf THEN <<V("C10", "oversized_message_delivered", e.sid, [len |-> e.len, limit |-> cfg.maxbuf])>> ELSE <<>>)
                /\ UNCHANGED <<cfg, Rq, Cn>>
        [] e.e = "sock.upgrading" /\ known ->
@@ -325,9 +326,8 @@ Step ==
        [] e.e = "cli.ws.dial" ->
             /\ Cn' = Put(Cn, e.cid, [sid |-> e.sid, role |-> IF e.sid = "" THEN "main" ELSE "cand", upgradeSent |-> FALSE, probed |-> FALSE,
                                     ponged |-> FALSE, closed |-> FALSE,
-                                    \* a later candidate: the session already switched, or another candidate is still being entertained
-                                    lateCand |-> e.sid # "" /\ Has(SS, e.sid) /\
-                                                 (SS[e.sid].nupg > 0 \/ \E c \in DOMAIN Cn : Cn[c].sid = e.sid /\ Cn[c].role = "cand" /\ ~Cn[c].closed)])
+                                    \* a candidate for a session that has already switched must be closed, never probed
+                                    lateCand |-> e.sid # "" /\ Has(SS, e.sid) /\ SS[e.sid].nupg > 0])
             /\ S' = SS /\ viol' = viol \o tv /\ UNCHANGED <<cfg, Rq>>
        [] e.e = "cli.ws.recv" ->
             LET c == Cn[e.cid]
@@ -339,7 +339,11 @@ Step ==
                /\ S' = IF live /\ isMain THEN Put(SS, sid, rc.s) ELSE SS
                /\ viol' = viol \o tv \o rc.v
                     \o (IF ~isMain /\ e.pk.ty = "message" THEN <<V("C08", "message_sent_to_candidate_before_upgrade", sid, e.pk.id)>> ELSE <<>>)
-                    \o (IF c.lateCand /\ e.pk.ty = "pong" THEN <<V("C08", "second_candidate_entertained", sid, e.cid)>> ELSE <<>>)
+                    \o (IF c.lateCand /\ e.pk.ty = "pong" THEN <<V("C08", "candidate_entertained_after_upgrade", sid, e.cid)>> ELSE <<>>)
+                    \* two candidates of one session probed and alive at the same time
+                    \o (IF e.pk.ty = "pong" /\ c.role = "cand" /\ \E c2 \in DOMAIN Cn : c2 # e.cid /\ Cn[c2].sid = sid /\ Cn[c2].role = "cand"
+                                                                                   /\ Cn[c2].ponged /\ ~Cn[c2].closed
+                        THEN <<V("C08", "second_candidate_entertained", sid, e.cid)>> ELSE <<>>)
                /\ UNCHANGED <<cfg, Rq>>
        [] e.e = "cli.ws.send" ->
             LET c == Cn[e.cid]
@@ -402,7 +406,7 @@ Step ==
        [] e.e = "finish" ->
             LET ivs == SelectSeq(e.left, LAMBDA g : (g = "interval"))
                 oth == SelectSeq(e.left, LAMBDA g : ~(g = "interval"))
-                co == \E x \in DOMAIN SS : SS[x].coincide
+                co == grid \/ \E x \in DOMAIN SS : SS[x].coincide
             IN /\ S' = SS
                /\ viol' = viol \o tv
                     \o (IF ivs # <<>> THEN <<V("C19", "interval_goroutine_left_behind", "", [n |-> Len(ivs), onCheckGrid |-> co])>> ELSE <<>>)
@@ -417,7 +421,7 @@ Step ==
 Finish == /\ l = Len(Trace) + 1 /\ ~done /\ done' = TRUE
           /\ PrintT("VIOLS " \o ToJson(viol))
           /\ PrintT("LINES " \o ToString(Len(Trace)))
-          /\ UNCHANGED <<l, scn, cfg, S, Rq, Cn, Pre, viol>>
+          /\ UNCHANGED <<l, scn, cfg, S, Rq, Cn, Pre, grid, viol>>
 
 Next == Step \/ Finish
 Spec == Init /\ [][Next]_vars
